@@ -915,7 +915,17 @@ impl<'a> World<'a> {
             self.disk.borrow_mut().files.remove(&p);
             self.stats.count("note.seam_bypassed_output_retried_on_real_fs");
             let l = self.pool[s].as_ref().unwrap();
-            catch(|| l.mesh.output(&p, prec))
+            let rr = catch(|| l.mesh.output(&p, prec));
+            // No fault can be injected into a writer the seam does not see — except through the path: every
+            // write to /dev/full fails with ENOSPC. A writer that returns normally from that has lost data
+            // without saying so (the one hard fault the real file system offers for free).
+            if rr.is_ok() && nnodes > 0 && std::path::Path::new("/dev/full").exists() {
+                self.stats.count("fault.real_device_full_for_a_writer_outside_the_seam");
+                if catch(|| l.mesh.output("/dev/full", prec)).is_ok() {
+                    return vfail("acknowledged-but-wrong", "output-to-full-device", self, format!("output(\"/dev/full\", {prec}) of a {nnodes}-node mesh returned normally although every write to that device fails with ENOSPC (this writer bypasses the simulated disk, so the real device stands in for the injected fault)"));
+                }
+            }
+            rr
         } else {
             if r.is_ok() && writes == 0 && creates == 0 {
                 self.disk.borrow_mut().files.remove(&p);
